@@ -120,6 +120,9 @@ def make_vector_arrays(data, ndim):
                     rawkey = key[:cut] + key[ind + 1 :]
                     if len(rawkey) == 0:
                         rawkey = "position"
+                    if rawkey in data and rawkey not in comp_list:
+                        # the merged name is taken by another variable: keep the components
+                        continue
                     data[rawkey] = Vector(
                         **{components[c]: data[comp_list[c]] for c in range(ndim)}
                     )
